@@ -16,6 +16,8 @@ interprets what this translator reads from the text of the definitions:
   dss::init / dss::close            gen_init_steps / gen_close_steps  (calls, with `if (cond on the argument)`)
   dss::clear_evaluators             gen_clear_steps
   dss::shake_impl                   gen_shake_impl_shape  (sequence of the recognised statements)
+                                    gen_ratio / gen_target_size  (binary64 expressions -> Gen/ValidTargetFacts.v,
+                                    generate_target)
 
 generate(snapshot_dir) -> (text, problems).  When something falls outside the
 recognised subset, problems is non-empty and the caller keeps the checked-in
@@ -442,8 +444,119 @@ def generate(snap):
     return HEADER + "\n" + "\n".join(out) + "\n", problems
 
 
+# ------------------------------------------- binary64 expressions -> Base/F64
+class DExpr:
+    """the double expressions of dss::shake_impl (ratio, target_size): literals, variables, + - * /,
+    std::min / std::max, parentheses"""
+
+    def __init__(self, text, variables):
+        self.toks = re.findall(r"std::min|std::max|\d+\.\d*(?:[eE][-+]?\d+)?|[A-Za-z_]\w*|[-+*/(),]", text)
+        if squash("".join(self.toks)) != squash(text):
+            raise Outside("cannot tokenise `%s`" % text.strip()[:80])
+        self.i = 0
+        self.vars = variables
+
+    def peek(self):
+        return self.toks[self.i] if self.i < len(self.toks) else None
+
+    def eat(self, t=None):
+        x = self.peek()
+        if t is not None and x != t:
+            raise Outside("expected `%s`, found `%s`" % (t, x))
+        self.i += 1
+        return x
+
+    def parse(self):
+        r = self.p_add()
+        if self.peek() is not None:
+            raise Outside("trailing `%s`" % self.peek())
+        return r
+
+    def p_add(self):
+        a = self.p_mul()
+        while self.peek() in ("+", "-"):
+            op = self.eat()
+            a = "(F64.%s %s %s)" % ("add" if op == "+" else "sub", a, self.p_mul())
+        return a
+
+    def p_mul(self):
+        a = self.p_atom()
+        while self.peek() in ("*", "/"):
+            op = self.eat()
+            a = "(F64.%s %s %s)" % ("mul" if op == "*" else "div", a, self.p_atom())
+        return a
+
+    def p_atom(self):
+        import struct
+        t = self.eat()
+        if t == "(":
+            r = self.p_add()
+            self.eat(")")
+            return r
+        if t in ("std::min", "std::max"):
+            self.eat("(")
+            a = self.p_add()
+            self.eat(",")
+            b = self.p_add()
+            self.eat(")")
+            return "(%s %s %s)" % ("std_min" if t == "std::min" else "std_max", a, b)
+        if t is not None and re.fullmatch(r"\d+\.\d*(?:[eE][-+]?\d+)?", t):
+            return "(F64.of_bits %d)" % struct.unpack("<Q", struct.pack("<d", float(t)))[0]
+        if t in self.vars:
+            return t
+        raise Outside("`%s` in a double expression" % t)
+
+
+TARGET_HEADER = """(* GENERATED by translate/valid_facts.py from dss::shake_impl (kernel/gp/src/dss.cc) -- do not edit.
+   The binary64 expressions of `ratio` and `target_size`; literals are bit patterns. *)
+From Coq Require Import ZArith.
+From VV Require Import Base.F64.
+Local Open Scope Z_scope.
+
+(* std::min(a, b) = (b < a) ? b : a ;  std::max(a, b) = (a < b) ? b : a *)
+Definition std_min (a b : f64) : f64 := if F64.ltb b a then b else a.
+Definition std_max (a b : f64) : f64 := if F64.ltb a b then b else a.
+"""
+
+
+def generate_target(snap):
+    problems, out = [], []
+    try:
+        with open(os.path.join(snap, "kernel/gp/src/dss.cc")) as f:
+            src = strip_comments(f.read())
+        body = body_of(src, r"void\s+dss::shake_impl\s*\(\s*\)")
+        if body is None:
+            raise Outside("dss::shake_impl not found")
+        ratio = target = None
+        sdecl = cast = False
+        for st in statements(body):
+            q = squash(st)
+            if q == "constautos(static_cast<double>(validation_.size()))":
+                sdecl = True
+            m = re.match(r"const\s+double\s+ratio\s*\((.*)\)$", st, re.S)
+            if m:
+                ratio = DExpr(m.group(1), {"s"}).parse()
+            m = re.match(r"const\s+double\s+target_size\s*\((.*)\)$", st, re.S)
+            if m:
+                target = DExpr(m.group(1), {"s", "ratio"}).parse()
+            if "static_cast<std::ptrdiff_t>(target_size)" in q:
+                cast = True
+        if not (sdecl and ratio and target and cast):
+            raise Outside("s / ratio / target_size / the cast to ptrdiff_t not all found in dss::shake_impl")
+        out.append("Definition gen_ratio (s : f64) : f64 := %s." % ratio)
+        out.append("Definition gen_target_size (s ratio : f64) : f64 := %s." % target)
+    except Outside as e:
+        problems.append("outside the translated subset: %s" % e)
+    except (OSError, IndexError) as e:
+        problems.append("translator: %r" % e)
+    return TARGET_HEADER + "\n" + "\n".join(out) + "\n", problems
+
+
 if __name__ == "__main__":
     import sys
     t, p = generate(sys.argv[1] if len(sys.argv) > 1 else "/repo/src")
+    print(t)
+    print("PROBLEMS:", p, file=sys.stderr)
+    t, p = generate_target(sys.argv[1] if len(sys.argv) > 1 else "/repo/src")
     print(t)
     print("PROBLEMS:", p, file=sys.stderr)
